@@ -31,12 +31,12 @@ ID = 'C12'
 LEVEL = 'model_checking'
 
 SEGS = ('~', '\n', '!', '\x1c')
-ELES = ('*', '|', '+')
+ELES = ('*', '|', '+', '\x1d')       # incl. a control-character separator (the FS/GS/RS/US family real files use)
 SUBS = (':', '>', '\\')
 EOLS = ('', '\n', '\r\n', '\r')
 BASE = ('~', '*', ':', '')
 FACTOR = ('seg', 'ele', 'sub', 'eol')
-NAMES = {'': 'none', '\n': 'LF', '\r\n': 'CRLF', '\r': 'CR', '\x1c': 'FS', '\\': 'backslash'}
+NAMES = {'': 'none', '\n': 'LF', '\r\n': 'CRLF', '\r': 'CR', '\x1c': 'FS', '\x1d': 'GS', '\\': 'backslash'}
 ENVELOPE = ('ISA', 'GS', 'ST', 'SE', 'GE', 'IEA', 'TA1')
 MUT_OPS = ('delete', 'duplicate', 'swap', 'retag-ZZZ', 'extra-elements', 'extra-components')      # from corpus.mutations
 OWN_OPS = ('trailing-element', 'trailing-component')                                            # made here, on the matrix
@@ -383,7 +383,7 @@ def run(R):
                              '%d structural operators (%s) at %s of the minimal document'
                              % (len(corpus.one_entry_per_map()), len(MUT_OPS + OWN_OPS), ', '.join(MUT_OPS + OWN_OPS),
                                 '3 positions (first body segment, middle, SE)' if R.thorough else '2 positions (middle, SE)'),
-                'encodings': '{~,LF,!,FS} x {*,|,+} x {:,>,backslash} x {none,LF,CRLF,CR}, delimiters absent from the data, line break disjoint '
+                'encodings': '{~,LF,!,FS} x {*,|,+,GS(0x1d)} x {:,>,backslash} x {none,LF,CRLF,CR}, delimiters absent from the data, line break disjoint '
                              'from the delimiters, component separator in the declared character set: %d for charset E; ' % len(full)
                              + ('all of them' if R.thorough else 'base + every single-factor change + greedy pairwise covering array (%d)' % len(quick_encodings((SEGS, ELES, SUBS)))),
                 'charset': "E for every document; B (component separator ':' only) for every minimal document and all documents of %s" % ', '.join(CHARSET_B_MAPS)}
